@@ -27,7 +27,7 @@ ASSUMPTIONS = [
 ]
 TIERS = {
     "quick": {"shards": 16, "cases": 640, "calls": 60, "timeout": 300},
-    "thorough": {"shards": 16, "cases": 32000, "calls": 70, "timeout": 3000},
+    "thorough": {"shards": 16, "cases": 120000, "calls": 70, "timeout": 3000},
 }
 FLOORS = {
     "quick": {"counts": {"field_comparisons": 400000, "power_comparisons": 8000,
